@@ -1,6 +1,7 @@
 import RimeModel.C09.AlgebraLemmas
 import RimeModel.C09.PrismLemmas
 import RimeModel.C09.GlueLemmas
+import RimeModel.C09.RegexLemmas
 /-!
 C09 — spelling algebra and the prism preserve the spelling-to-syllable relation.
 Property theorems only.  Model: RimeModel/C09/Model.lean (algebra), RimeModel/C09/Prism.lean (prism);
@@ -8,7 +9,10 @@ specification vocabulary (`Script.spells`, `SortedBy`, `mergeCandidates`, `bfsLt
 
 A rule is one of the six kinds plus an ARBITRARY function `run : spelling → notApplied | applied r | threw`
 (the regular-expression engine is not modelled), so every theorem below holds for all regular
-expressions; syllabaries, rule lists, queries and limits are unbounded.
+expressions; syllabaries, rule lists, queries and limits are unbounded.  For `erase` the model also
+gives the pattern a meaning on a fragment of the regex syntax (RimeModel/C09/Regex.lean:
+`Erasion.run` = whole-string `regex_match`); `erase_own_name_round` and `erase_literal_exact` are
+about that concrete rule.
 -/
 namespace C09
 open RimeModel.C09
@@ -62,6 +66,39 @@ theorem own_name_law (syl : List Bytes) (rules : List Rule) (y : Bytes) (hy : y 
     (hn : ¬ (Projection.apply rules (Script.ofSyllabary syl)).2.spells y y) :
     ∃ r ∈ rules, r.kind.deletion = true ∧ (r.run y).isApplied = true :=
   spells_apply_keep rules _ (ofSyllabary_spells_self hy) hn
+
+/-- Own-name law for `erase` with a pattern of the modelled fragment: a syllable that loses its own
+spelling in an erase round is matched by the pattern AS A WHOLE (`regex_match`) — a pattern that merely
+occurs inside the spelling erases nothing. -/
+theorem erase_own_name_round (re : Re) (S T : Script) (hround : round (Erasion.rule re) S = some T) (y : Bytes)
+    (h : S.spells y y) (hn : ¬ T.spells y y) : y ≠ [] ∧ re.fullMatch y = true := by
+  have happ := (own_name_round (Erasion.rule re) S T hround y h hn).2
+  unfold Erasion.rule Erasion.run at happ
+  simp only at happ
+  by_cases hy : y = []
+  · rw [if_pos hy] at happ; cases happ
+  · rw [if_neg hy] at happ
+    refine ⟨hy, ?_⟩
+    cases hm : re.fullMatch y with
+    | true => rfl
+    | false => rw [hm] at happ; cases happ
+
+/-- `erase` with a literal pattern `w` (no anchors needed) applies to the spelling `w` and to no other:
+not to a longer spelling that contains `w`. -/
+theorem erase_literal_exact (w s : Bytes) :
+    (Erasion.run (Re.lits w) s).isApplied = true ↔ (s = w ∧ s ≠ []) := by
+  unfold Erasion.run
+  by_cases hs : s = []
+  · rw [if_pos hs]; simp [Outcome.isApplied, hs]
+  · rw [if_neg hs]
+    cases hm : (Re.lits w).fullMatch s with
+    | true =>
+      have := (fullMatch_lits_iff w s).mp hm
+      simp [Outcome.isApplied, this]
+      exact fun e => hs (this.trans e)
+    | false =>
+      have hne : s ≠ w := fun e => by rw [(fullMatch_lits_iff w s).mpr e] at hm; cases hm
+      simp [Outcome.isApplied, hne]
 
 /-- the deleting kinds are exactly xlit, xform and erase -/
 theorem deleting_kinds (k : Kind) : k.deletion = true ↔ (k = .xlit ∨ k = .xform ∨ k = .erase) := by
@@ -398,6 +435,20 @@ example : ∃ p, Prism.load (Prism.build [[97], [97, 98], [98], [98, 97], [98, 9
     p.expandSearch [98] 0 = [⟨2, 1⟩, ⟨5, 2⟩, ⟨3, 2⟩, ⟨4, 2⟩] ∧
     p.expandSearch [98] 2 = [⟨2, 1⟩, ⟨5, 2⟩] ∧ p.expandSearch [99] 0 = [] :=
   ⟨_, load_build_id _ _, by decide, by decide, by decide, by decide⟩
+
+/-- `erase/^a/` and `erase/b$/` parse into the fragment; as whole-string matches they do NOT apply to "ab"
+although the pattern occurs in it (a search would hit), `erase/^a.*$/` and `erase/ab/` do -/
+example : (parseRegex [94, 97]).map (fun r => (Erasion.run r [97, 98], r.occursIn [97, 98])) = some (.notApplied, true) ∧
+    (parseRegex [98, 36]).map (fun r => (Erasion.run r [97, 98], r.occursIn [97, 98])) = some (.notApplied, true) ∧
+    (parseRegex [94, 97, 46, 42, 36]).map (fun r => Erasion.run r [97, 98]) = some (.applied []) ∧
+    (parseRegex [97, 98]).map (fun r => (Erasion.run r [97, 98], Erasion.run r [97, 98, 99], r.occursIn [97, 98, 99])) =
+      some (.applied [], .notApplied, true) ∧
+    Erasion.run (Re.lits [97, 98]) [97, 98] = .applied [] ∧ parseRegex [97, 92, 98] = none := by decide
+
+/-- hypotheses of `erase_own_name_round` are satisfiable: `erase/^a.*$/` on the syllabary { "ab", "b" } -/
+example : ∃ re T, parseRegex [94, 97, 46, 42, 36] = some re ∧ round (Erasion.rule re) (Script.ofSyllabary syl0) = some T ∧
+    T.keys = [[98]] ∧ re.fullMatch [97, 98] = true :=
+  ⟨_, _, rfl, rfl, by decide, by decide⟩
 
 end examples
 
